@@ -169,6 +169,8 @@ def _done(res, ses, counters, spec):
     res.setdefault("nontrivial", res["verdict"] == "violation")
     counters.update(ses.totals)
     res["counters"] = counters
+    res["interleavings"] = sorted(ses.order_digests)
+    res["policies"] = ses.policies
     res["probes"] = {"cache_cap_small": 1 if (spec.get("cache_cap") or 10) < 10 else 0, "history_steps": counters["history_steps"]}
     res["case_digest"] = R.digest({k: v for k, v in spec.items() if k not in ("hash_seed", "run_seed")})
     return res
